@@ -16,6 +16,9 @@ from vf.sym import pdshim, progs, refsem, rel, simple
 from vf.sym.cell import Cell, FALSE, TRUE, zand, znot, zor, null_cell
 
 PROP = "C05"
+# methods that test, select or order values without computing on them: decided also with +/-infinity among the arguments
+DOMAIN = {"log": (0.25, 40), "log10": (0.25, 40), "log1p": (0, 40), "sqrt": (0, 40), "arccos": (-1, 1), "arcsin": (-1, 1), "arccosh": (1, 40), "arctanh": (-0.75, 0.75)}
+INF_OPS = {"coalesce", "is_inf", "is_bad", "is_null", "is_nan", "if_else", "where", "<", "<=", ">", ">=", "==", "!=", "maximum", "minimum", "fmax", "fmin", "is_in"}
 
 M = "TableDescription(table_name='m', column_names=['x', 'y', 'z', 'a', 'b', 'q', 'row_id', 'g', 's2'])"
 SCHEMA = {"m": [("x", "f", True), ("y", "f", True), ("z", "f", True), ("a", "b", True), ("b", "b", True), ("q", "i", True), ("row_id", "i", True), ("g", "s", True), ("s2", "s", True)]}
@@ -212,6 +215,10 @@ def build_jobs(tier, seed, kf_on):
         if ob["op"] in ("as_int64", "is_nan", "is_inf"):
             # domain: a missing value has no int64 form, and NaN-vs-NULL is not distinguished by the value model (DESIGN §3): argument assumed present
             assume = assume + [("nonnull", "m", ["x", "y", "z"])]
+        if ob["op"] in DOMAIN:
+            # "for all argument values in the method's domain": outside it (log(0), sqrt(-1), arccos(2)) backends raise / give inf / NaN
+            lo, hi = DOMAIN[ob["op"]]
+            assume = assume + [("range", "m", c, lo, hi) for c in ("x", "y", "z")]
         for n in ns:
             rows = {"m": n}
             if doc is not None and doc[0] in DOC:
@@ -223,6 +230,16 @@ def build_jobs(tier, seed, kf_on):
                 for (na, sa), (nb, sb) in zip(sides, sides[1:]):
                     jobs.append(simple.tv_job(f"{ob['op']} [{ob['expr']}] {na} vs {nb} @{n}", SCHEMA, rows, sa, sb, kf_on, tier, assume=assume,
                                               validate=(0 if "postgresql" in (na + nb) else 1), max_paths=2000, wall_s=90))
+            if ob["op"] in INF_OPS and ob["cls"] in ("e", "u") and len(sides) > 1:
+                # +/- infinity among the argument values (inf mode, vf/sym/cell.py): only for methods that test or move values without
+                # computing on them; the obligation is agreement of the backends that claim the method
+                for (na, sa), (nb, sb) in zip(sides, sides[1:]):
+                    if "postgresql" in (na + nb):
+                        continue  # no PostgreSQL engine to confirm an infinity witness on
+                    jobs.append(simple.tv_job(f"{ob['op']} [{ob['expr']}] {na} vs {nb} with infinities @{n}", SCHEMA, rows, sa, sb, kf_on, tier, assume=assume,
+                                              inf=True, max_paths=2000, wall_s=90))
+                jobs.append(simple.tv_job(f"{ob['op']} [{ob['expr']}] {sides[0][0]} vs polars with infinities @{n}", SCHEMA, rows, sides[0][1],
+                                          {"kind": "polars", "src": src, "lazy": False}, kf_on, tier, assume=assume, inf=True, b_may_raise=True, max_paths=2000, wall_s=90))
             # the Polars executor (not in the catalog): same value whenever it does not raise -- against the documented meaning where there is one,
             # otherwise against the first backend that claims the method
             pl_side = {"kind": "polars", "src": src, "lazy": False}
